@@ -191,6 +191,47 @@ def run_tolerant(ctx, binary, items, name="replay", timeout=900):
     return events, crashes
 
 
+def validate_parallel(ctx, module, events, keep, cfg_text, batch=500, jobs=12):
+    """ctx.validate, with the batches (independent TLC runs, one worker each) run side by side."""
+    events = [e for e in events if e["e"] in keep]
+    by_t = {}
+    for e in events:
+        by_t.setdefault(e["t"], []).append(e)
+    ts = sorted(by_t)
+    chunks = [ts[i:i + batch] for i in range(0, len(ts), batch)]
+
+    def one(arg):
+        bi, chunk = arg
+        d = ctx.sub("%s-b%d" % (module, bi))
+        with open(os.path.join(d, "trace.ndjson"), "w") as f:
+            for t in chunk:
+                for e in by_t[t]:
+                    f.write(json.dumps(e) + "\n")
+        r = ctx.tlc(module, None, name=os.path.basename(d), workers=1, timeout=1800, cfg_text=cfg_text)
+        if not r["ok"]:
+            raise vlib.Infra("trace validation run failed: invariant=%s error=%s (see %s/tlc.out)" % (
+                r["invariant"], r["error"], r["dir"]))
+        got = None
+        for tag, val in r["printed"]:
+            if tag == "VERDICTS":
+                got = val
+        if got is None:
+            raise vlib.Infra("no VERDICTS line from %s (see %s/tlc.out)" % (module, r["dir"]))
+        return chunk, got, r["distinct"]
+
+    verdicts, states = {}, 0
+    with ThreadPoolExecutor(max_workers=jobs) as ex:
+        for chunk, got, n in ex.map(one, enumerate(chunks)):
+            states += n
+            for rec in got:
+                verdicts.setdefault(rec["t"], []).append(rec)
+            for t in chunk:
+                if t not in verdicts:
+                    raise vlib.Infra("trace %s produced no verdict (incomplete trace?)" % t)
+    ctx.cov["trace_states"] = ctx.cov.get("trace_states", 0) + states
+    return verdicts, by_t
+
+
 def normalise(events):
     """Fold each "Permits" event (logged by the connection tap immediately before the command
     is handed to the server) into the following "Cmd" event; drop free-text fields."""
@@ -306,7 +347,7 @@ def run(ctx, replay):
         ctx.cov["final_state_behaviours"] = len(ex_b)
         ctx.log("as-is state graph (open deviations on): %d states, %d distinct final states, %.1fs" % (
             g["distinct"], len(ex_b), g["wall"]))
-        behs = ex_b if thorough else stratified(ctx.rng, ex_b, 700)
+        behs = stratified(ctx.rng, ex_b, 30000 if thorough else 700)
         if not gf["ok"]:
             raise vlib.Infra("focused behaviour generation failed: %s %s" % (gf["invariant"], gf["error"]))
         fb = behaviours_from(gf)
@@ -329,6 +370,7 @@ def run(ctx, replay):
     events = normalise(raw)
     by_id = {b["id"]: b for b in behs}
     missing = set(by_id) - {e["t"] for e in events if e["e"] in ("End", "Crash")}
+    ctx.log("replayed: %d events, %d server crashes" % (len(events), len(crashes)))
     if missing:
         raise vlib.Infra("behaviours without a final event: %s" % sorted(missing)[:10])
     stuck = [e["t"] for e in raw if e["e"] in ("Stuck", "BadReply")]
@@ -336,11 +378,14 @@ def run(ctx, replay):
         raise vlib.Infra("harness could not drive behaviours %s (Stuck/BadReply event)" % stuck[:10])
 
     # binding self-test: a corrupted and a truncated copy of an accepted trace
+    ev_by_t = {}
+    for e in events:
+        ev_by_t.setdefault(e["t"], []).append(e)
     selftest = {}
     if not replay:
         base = None
         for b in behs:
-            evs = [e for e in events if e["t"] == b["id"]]
+            evs = ev_by_t.get(b["id"], [])
             if not b["cfg"]["lmtp"] and evs[-1]["e"] == "End" and \
                     any(e["e"] == "Tgt" and e["op"] == "commit" for e in evs) and \
                     not any(e["e"] == "Tgt" and e["res"] not in ("ok", "") for e in evs) and \
@@ -361,8 +406,7 @@ def run(ctx, replay):
 
     tcfg = cfg(["ra", "rb", "rc"], [1, 2, 3], ["temp", "perm"], 1000, 1000, devs=open_devs,
                tail=TRACE_TAIL, spec="TSpec")
-    verdicts, by_t = ctx.validate("SessionTrace", None, events, keep=KEEP, cfg_text=tcfg,
-                                  batch=800 if thorough else 400)
+    verdicts, by_t = validate_parallel(ctx, "SessionTrace", events, KEEP, tcfg, batch=500)
 
     ok = drift = known_n = 0
     preds, devs_seen = {}, {}
@@ -412,7 +456,8 @@ def run(ctx, replay):
     ctx.cov["violated_predicates"] = preds
     ctx.cov["rule"] = ("behaviours = complete client scripts + fault plans of Session.tla printed by TLC "
                        "with the deviations of the open findings enabled: one shortest behaviour per distinct final state of "
-                       "the state graph (quick: <=5 commands, stratified sample of 700; thorough: <=6 commands, all) "
+                       "the state graph (quick: <=5 commands, stratified sample of 700; thorough: <=6 commands, stratified "
+                       "sample of 30000) "
                        "plus -simulate with VERIF_SEED up to 12 commands, de-duplicated; non-trivial = "
                        "a scripted failure, an invalid/odd argument, RSET/drop/pipelining or BDAT")
     for b in behs[:3]:
